@@ -478,6 +478,12 @@ class Lane(LaneBase):
             d[inc] = through_json(g.to_dict(include_meta=bool(inc)))
             lines.append(f'dict to {inc} {tok}')
             out.append(dict_text(d[inc]))
+        # iterating a graph yields the items of its dictionary (`dict(g)` is the documented short form of `g.to_dict()`)
+        try:
+            if json.dumps(dict(g)) != json.dumps(g.to_dict()):
+                oracle.append('dict(g) differs from g.to_dict()')
+        except Exception as e:  # noqa: BLE001
+            oracle.append(f'dict(g) raised {type(e).__name__}')
         # the dictionary is JSON text: serialising twice gives the same text
         if json.dumps(g.to_dict()) != json.dumps(through_json(g.to_dict())):
             oracle.append('json text of to_dict changes after one json round trip')
